@@ -106,14 +106,43 @@ func loadCorpus(c *Ctx) []Case {
 		if err != nil {
 			continue
 		}
+		// a corpus file is a list of cases, or a replay file kept as it was written (the cases of its failures and
+		// model disagreements): both run
 		var doc struct {
-			Cases []Case `json:"cases"`
+			Cases    []Case `json:"cases"`
+			Failures []struct {
+				Case Case `json:"case"`
+			} `json:"failures"`
+			Tie []struct {
+				Case Case `json:"case"`
+			} `json:"tie_disagreements"`
 		}
 		if json.Unmarshal(b, &doc) == nil {
 			out = append(out, doc.Cases...)
+			if len(doc.Cases) == 0 {
+				for _, f := range doc.Failures {
+					if f.Case != nil {
+						out = append(out, f.Case)
+					}
+				}
+				for _, f := range doc.Tie {
+					if f.Case != nil {
+						out = append(out, f.Case)
+					}
+				}
+			}
 		}
 	}
-	return out
+	// one evaluation per distinct case
+	seen := map[string]bool{}
+	uniq := out[:0]
+	for _, cs := range out {
+		if k := cs.Key(); !seen[k] {
+			seen[k] = true
+			uniq = append(uniq, cs)
+		}
+	}
+	return uniq
 }
 
 func init() {
